@@ -287,10 +287,16 @@ func (conn *Conn) h_001(line *Line) {
 		logging.Warn("Server changed our nick on connect: old=%q new=%q", me.Nick, nick)
 	}
 	if conn.st != nil {
+		// Both calls return nil when they change nothing (ReNick does when
+		// the server confirms the nick we asked for): never store that.
 		if ok {
-			conn.st.NickInfo(me.Nick, ident, host, me.Name)
+			if n := conn.st.NickInfo(me.Nick, ident, host, me.Name); n != nil {
+				conn.cfg.Me = n
+			}
 		}
-		conn.cfg.Me = conn.st.ReNick(me.Nick, nick)
+		if n := conn.st.ReNick(me.Nick, nick); n != nil {
+			conn.cfg.Me = n
+		}
 	} else {
 		conn.cfg.Me.Nick = nick
 		if ok {
@@ -322,7 +328,9 @@ func (conn *Conn) h_433(line *Line) {
 	// a NICK message to confirm our change of nick, so ReNick here...
 	if line.Args[1] == me.Nick {
 		if conn.st != nil {
-			conn.cfg.Me = conn.st.ReNick(me.Nick, neu)
+			if n := conn.st.ReNick(me.Nick, neu); n != nil {
+				conn.cfg.Me = n
+			}
 		} else {
 			conn.cfg.Me.Nick = neu
 		}
